@@ -11,12 +11,14 @@ package main
 //      and one burst through the HTTP handler in real time
 
 import (
+	"encoding/json"
 	"fmt"
 	"io/ioutil"
 	"math"
 	"math/big"
 	"math/rand"
 	"net/http"
+	"net/http/httptest"
 	"net/url"
 	"path/filepath"
 	"strconv"
@@ -25,6 +27,7 @@ import (
 	"testing"
 	"time"
 
+	"github.com/Cloud-Foundations/keymaster/lib/authenticators/okta"
 	"github.com/Cloud-Foundations/keymaster/lib/simplestorage"
 	"github.com/pquerna/otp/totp"
 	"golang.org/x/time/rate"
@@ -38,20 +41,35 @@ type c14Backend struct {
 	calls int
 	delay time.Duration // latency of the directory (LDAP / Okta are network services)
 	probe func()        // runs inside every lookup (the ordering probe reads the limiter here)
+	// what the backend answers to the 1st, 2nd, ... lookup made for a user: 0 = an honest verdict,
+	// 1 = "cannot tell" (a directory resetting connections, an identity provider answering 5xx);
+	// the last element repeats; no script = honest
+	script map[string][]int
 }
 
 func (b *c14Backend) PasswordAuthenticate(username string, password []byte) (bool, error) {
 	b.mu.Lock()
+	k := b.seen[username]
 	b.seen[username]++
 	b.calls++
 	d := b.delay
 	pr := b.probe
+	answer := 0
+	if pat := b.script[username]; len(pat) > 0 {
+		if k >= len(pat) {
+			k = len(pat) - 1
+		}
+		answer = pat[k]
+	}
 	b.mu.Unlock()
 	if pr != nil {
 		pr()
 	}
 	if d > 0 {
 		time.Sleep(d)
+	}
+	if answer == 1 {
+		return false, fmt.Errorf("verif: password backend unavailable")
 	}
 	return string(password) == "good-"+username, nil
 }
@@ -688,6 +706,384 @@ Definition first_n_called (n : nat) (l : list (Z * Z * bool)) : bool := forallb 
 				What: fmt.Sprintf("%d attempts: %d backend calls, %d answered 429", n, calls, n429), Case: map[string]interface{}{"phase": "in-flight"}})
 		}
 	}
+	// phase 4: a password backend that cannot always tell.  One limiter token must buy ONE lookup whatever
+	// the answer is: bursts (sequential, then in flight together) on a fresh limiter against a backend that
+	// fails always / now and then / on the first lookup of every user; the oracle counts LOOKUPS
+	// (invocations of PasswordAuthenticate), per attempt and against burst + rate*elapsed + 1
+	type lkObs struct {
+		mode, entry  string
+		good         bool
+		pat          []int
+		status, seen int
+	}
+	var lks []lkObs
+	{
+		const eBurst, eRate = 16, 1.0
+		pats := [][]int{{1, 1, 1}, {1, 0, 0}, {0, 0, 0}, {1, 1, 0}}
+		modes := []struct {
+			name string
+			pat  func(i int) []int
+		}{
+			{"backend-always-failing", func(i int) []int { return pats[0] }},
+			{"backend-failing-intermittently", func(i int) []int { return pats[rng.Intn(len(pats))] }},
+			{"backend-failing-on-first-lookup", func(i int) []int { return pats[1] }},
+		}
+		nSeq, nFlight := 8, 24
+		if thorough {
+			nSeq, nFlight = 8, 60
+		}
+		for mi, md := range modes {
+			eenv := verifSetup(t, func(c *AppConfigFile, dir string) {
+				c.Base.AllowedAuthBackendsForWebUI = []string{"password"}
+				c.Base.AllowedAuthBackendsForCerts = []string{"U2F"}
+				c.Base.PasswordAttemptGlobalBurstLimit = eBurst
+				c.Base.PasswordAttemptGlobalRateLimit = eRate
+			})
+			eb := &c14Backend{seen: map[string]int{}, script: map[string][]int{}}
+			eenv.state.passwordChecker = eb
+			one := func(i int, pat []int) lkObs {
+				entry := entries[i%3]
+				user := fmt.Sprintf("lk%dx%d", mi, i)
+				good := i%5 == 2
+				pw := "bad"
+				if good {
+					pw = "good-" + user
+				}
+				var req *http.Request
+				switch entry {
+				case "form":
+					f := url.Values{}
+					f.Set("username", user)
+					f.Set("password", pw)
+					req = verifNewRequest("POST", "/api/v0/login", f)
+				case "login-basic":
+					req = verifNewRequest("POST", "/api/v0/login", url.Values{})
+					req.SetBasicAuth(user, pw)
+				default:
+					req = verifNewRequest("GET", profilePath, nil)
+					req.SetBasicAuth(user, pw)
+				}
+				rr, _ := eenv.serve(req)
+				return lkObs{mode: md.name, entry: entry, good: good, pat: pat, status: rr.Code, seen: eb.called(user)}
+			}
+			register := func(i int) []int {
+				pat := md.pat(i)
+				eb.mu.Lock()
+				eb.script[fmt.Sprintf("lk%dx%d", mi, i)] = pat
+				eb.mu.Unlock()
+				return pat
+			}
+			start := time.Now()
+			var got []lkObs
+			for i := 0; i < nSeq; i++ {
+				got = append(got, one(i, register(i)))
+			}
+			var wg sync.WaitGroup
+			var mu sync.Mutex
+			for i := nSeq; i < nSeq+nFlight; i++ {
+				pat := register(i)
+				wg.Add(1)
+				go func(i int, pat []int) {
+					defer wg.Done()
+					o := one(i, pat)
+					mu.Lock()
+					got = append(got, o)
+					mu.Unlock()
+				}(i, pat)
+			}
+			wg.Wait()
+			elapsed := time.Since(start)
+			eb.mu.Lock()
+			lookups := eb.calls
+			eb.mu.Unlock()
+			n429, admitted := 0, 0
+			for _, o := range got {
+				res.bump("handler:" + md.name)
+				res.eval(fmt.Sprintf("lk|%s|%s|%v|%v|%d|%d", md.name, o.entry, o.good, o.pat, o.status, o.seen), o.pat[0] == 1 && o.status != http.StatusTooManyRequests)
+				if o.status == http.StatusTooManyRequests {
+					n429++
+					if o.seen != 0 {
+						res.hit(verifHit{Key: "C14:handler:429-with-backend-call:" + o.entry, Oracle: "a refused attempt performs no backend lookup",
+							What: fmt.Sprintf("%s attempt answered 429 but the password backend (%s) was invoked %d time(s)", o.entry, md.name, o.seen), Case: map[string]interface{}{"entry": o.entry, "phase": md.name}})
+					}
+					continue
+				}
+				admitted++
+				if o.seen != 1 {
+					res.hit(verifHit{Key: "C14:handler:lookups-per-token:" + md.name, Oracle: "an attempt that the limiter lets through costs exactly one backend lookup, whatever the backend answers",
+						What: fmt.Sprintf("%s attempt (answered %d) against a password backend whose answers to successive lookups are %v (1 = error): %d lookups for one limiter token", o.entry, o.status, o.pat, o.seen),
+						Case: map[string]interface{}{"entry": o.entry, "backend": md.name, "answers_1_is_error": o.pat, "good_password": o.good}, Observed: map[string]interface{}{"status": o.status, "lookups": o.seen}})
+				}
+			}
+			limit := float64(eBurst) + eRate*elapsed.Seconds() + 1
+			res.Extra["lookups:"+md.name] = map[string]interface{}{"attempts": len(got), "admitted": admitted, "answered_429": n429, "lookups": lookups, "elapsed_s": elapsed.Seconds(), "bound": limit}
+			if float64(lookups) > limit {
+				res.hit(verifHit{Key: "C14:handler:too-many-backend-lookups:" + md.name, Oracle: "backend lookups <= burst + rate*elapsed + 1",
+					What: fmt.Sprintf("%d attempts in %.3fs (burst %d, rate %v/s): the password backend was invoked %d times, bound %.2f; %d attempts were let through, %d answered 429", len(got), elapsed.Seconds(), eBurst, eRate, lookups, limit, admitted, n429),
+					Case: map[string]interface{}{"backend": md.name, "sequential": nSeq, "in_flight": nFlight}, Observed: map[string]interface{}{"lookups": lookups, "bound": limit}})
+			}
+			if admitted < eBurst || n429 == 0 {
+				res.hit(verifHit{Key: "C14:harness:failing-backend-burst", Oracle: "harness", What: fmt.Sprintf("%s: %d let through, %d answered 429", md.name, admitted, n429), Case: md.name})
+			}
+			lks = append(lks, got...)
+		}
+	}
+	// per attempt against the model: login_step_tries code_tries on a full bucket (let through) or an empty
+	// one (429) with the answer stream of that attempt
+	{
+		var lidx strings.Builder
+		coq.WriteString("(* failing backend: (entry 0 form / 1 basic, right password, answers to successive lookups (1 = error), status, lookups observed) *)\nDefinition lk_cases : list (Z * bool * list Z * Z * Z) := [")
+		for i, o := range lks {
+			if i > 0 {
+				coq.WriteString(";")
+			}
+			e := 1
+			if o.entry == "form" {
+				e = 0
+			}
+			var ps []string
+			for _, x := range o.pat {
+				ps = append(ps, strconv.Itoa(x))
+			}
+			coq.WriteString(fmt.Sprintf("(%d,%s,[%s],%d,%d)", e, coqBool(o.good), strings.Join(ps, ";"), o.status, o.seen))
+			lidx.WriteString(fmt.Sprintf("lookup %d\tbackend=%s entry=%s right-password=%v answers(1=error)=%v -> status %d, %d lookups\n", i, o.mode, o.entry, o.good, o.pat, o.status, o.seen))
+		}
+		coq.WriteString(`].
+Definition lk_cfg := mkcfg 1 1 10.
+Definition lk_answer (good : bool) (x : Z) : backend_answer := if x =? 1 then PwError else if good then PwGood else PwBad.
+Definition lk_model (c : Z * bool * list Z * Z * Z) : login_out :=
+  let '(e, good, pat, st, lk) := c in
+  let s := if st =? 429 then {| last := 0; T := 0 |} else init lk_cfg 0 in
+  snd (login_step_tries code_tries lk_cfg s (if e =? 0 then Form else BasicAuth) 0 (map (lk_answer good) pat)).
+Definition lk_bad (c : Z * bool * list Z * Z * Z) : bool :=
+  let '(e, good, pat, st, lk) := c in
+  let o := lk_model c in
+  negb ((lookups o =? lk) && (if status o =? 200 then st <? 400 else status o =? st)).
+(* the property on the observation itself: one token buys at most one lookup, a refusal none *)
+Definition lk_violates (c : Z * bool * list Z * Z * Z) : bool :=
+  let '(e, good, pat, st, lk) := c in if st =? 429 then 0 <? lk else 1 <? lk.
+Definition c14_lookup_mismatches := Eval vm_compute in mismatches lk_bad lk_cases.
+Print c14_lookup_mismatches.
+Definition c14_lookup_violating := Eval vm_compute in filter (fun i => lk_violates (nth i lk_cases (0, false, [], 429, 0))) c14_lookup_mismatches.
+Print c14_lookup_violating.
+`)
+		ioutil.WriteFile(filepath.Join(verifOut(), "CasesC14_lookup.idx"), []byte(lidx.String()), 0644)
+	}
+	// phase 5: the Okta password backend (lib/authenticators/okta, the real PasswordAuthenticator) against a
+	// local stand-in for the authn endpoint.  A lookup is one HTTP request to that endpoint; what it answers
+	// (200 SUCCESS / MFA_REQUIRED / another status word / an undecodable body, 401, 403, 429, 5xx) is the
+	// answer stream of the model (okta_answer).  The limiter must come first here too (the endpoint reads
+	// the limiter while it is being asked), and one token buys one request to the identity provider.
+	{
+		type oResp struct {
+			http int
+			body int // 0 SUCCESS 1 MFA_REQUIRED 2 another status word 3 undecodable; -1 = honest (200 SUCCESS / 401 by the password)
+		}
+		kinds := []oResp{{0, -1}, {500, 2}, {503, 2}, {429, 2}, {403, 2}, {200, 2}, {200, 3}, {200, 1}, {401, 2}, {200, 0}}
+		const oBurst, oRate = 30, 1.0
+		oenv := verifSetup(t, func(c *AppConfigFile, dir string) {
+			c.Base.AllowedAuthBackendsForWebUI = []string{"password"}
+			c.Base.AllowedAuthBackendsForCerts = []string{"U2F"}
+			c.Base.PasswordAttemptGlobalBurstLimit = oBurst
+			c.Base.PasswordAttemptGlobalRateLimit = oRate
+		})
+		lim := oenv.state.passwordAttemptGlobalLimiter
+		var omu sync.Mutex
+		oSeen := map[string]int{}
+		oScript := map[string][]oResp{}
+		oTokens := map[string][]float64{}
+		oCalls := 0
+		fake := httptest.NewServer(http.HandlerFunc(func(w http.ResponseWriter, r *http.Request) {
+			var in struct {
+				Username string `json:"username"`
+				Password string `json:"password"`
+			}
+			json.NewDecoder(r.Body).Decode(&in)
+			omu.Lock()
+			k := oSeen[in.Username]
+			oSeen[in.Username]++
+			oCalls++
+			oTokens[in.Username] = append(oTokens[in.Username], lim.Tokens())
+			rs := oResp{0, -1}
+			if pat := oScript[in.Username]; len(pat) > 0 {
+				if k >= len(pat) {
+					k = len(pat) - 1
+				}
+				rs = pat[k]
+			}
+			omu.Unlock()
+			if rs.body == -1 {
+				rs = oResp{401, 2}
+				if in.Password == "good-"+in.Username {
+					rs = oResp{200, 0}
+				}
+			}
+			w.Header().Set("Content-Type", "application/json")
+			w.WriteHeader(rs.http)
+			switch rs.body {
+			case 0:
+				fmt.Fprintf(w, `{"status":"SUCCESS","expiresAt":"%s"}`, time.Now().Add(time.Minute).Format(time.RFC3339))
+			case 1:
+				fmt.Fprintf(w, `{"status":"MFA_REQUIRED","stateToken":"verif","expiresAt":"%s"}`, time.Now().Add(time.Minute).Format(time.RFC3339))
+			case 2:
+				fmt.Fprint(w, `{"status":"LOCKED_OUT"}`)
+			default:
+				fmt.Fprint(w, `<html>gateway`)
+			}
+		}))
+		defer fake.Close()
+		pa, err := okta.NewPublicTesting(fake.URL+"/api/v1/authn", logger)
+		if err != nil {
+			t.Fatal(err)
+		}
+		oenv.state.passwordChecker = pa
+		type oObs struct {
+			entry        string
+			good         bool
+			pat          []oResp
+			status, seen int
+			before       float64
+			atLookup     []float64
+		}
+		one := func(i int, pat []oResp) oObs {
+			entry := entries[i%3]
+			user := fmt.Sprintf("okta%d", i)
+			good := i%4 == 1
+			pw := "bad"
+			if good {
+				pw = "good-" + user
+			}
+			omu.Lock()
+			oScript[user] = pat
+			omu.Unlock()
+			var req *http.Request
+			switch entry {
+			case "form":
+				f := url.Values{}
+				f.Set("username", user)
+				f.Set("password", pw)
+				req = verifNewRequest("POST", "/api/v0/login", f)
+			case "login-basic":
+				req = verifNewRequest("POST", "/api/v0/login", url.Values{})
+				req.SetBasicAuth(user, pw)
+			default:
+				req = verifNewRequest("GET", profilePath, nil)
+				req.SetBasicAuth(user, pw)
+			}
+			o := oObs{entry: entry, good: good, pat: pat, before: lim.Tokens()}
+			rr, _ := oenv.serve(req)
+			o.status = rr.Code
+			omu.Lock()
+			o.seen = oSeen[user]
+			o.atLookup = append([]float64(nil), oTokens[user]...)
+			omu.Unlock()
+			return o
+		}
+		var got []oObs
+		start := time.Now()
+		// sequential: the first attempts also serve as ordering probe (nothing else touches the limiter)
+		nSeq, nFlight := 20, 24
+		if thorough {
+			nSeq, nFlight = 20, 60
+		}
+		for i := 0; i < nSeq; i++ {
+			kd := kinds[i%len(kinds)]
+			pat := []oResp{kd, kd, kd}
+			if i%2 == 1 {
+				pat = []oResp{kd, {0, -1}, {0, -1}}
+			}
+			o := one(i, pat)
+			if o.status != http.StatusTooManyRequests && len(o.atLookup) > 0 && o.atLookup[0] > o.before-0.5 {
+				res.hit(verifHit{Key: "C14:handler:backend-before-limiter:" + o.entry + ":okta", Oracle: "the limiter is consulted (and charged) before the password backend is asked",
+					What: fmt.Sprintf("%s attempt with Okta as password backend: the limiter held %.3f tokens before the request and still %.3f while the authn endpoint was being asked", o.entry, o.before, o.atLookup[0]),
+					Case: map[string]interface{}{"entry": o.entry, "backend": "okta", "good_password": o.good}})
+			}
+			got = append(got, o)
+		}
+		var wg sync.WaitGroup
+		var mu sync.Mutex
+		for i := nSeq; i < nSeq+nFlight; i++ {
+			kd := kinds[rng.Intn(len(kinds))]
+			pat := []oResp{kd, kinds[rng.Intn(len(kinds))], {0, -1}}
+			wg.Add(1)
+			go func(i int, pat []oResp) {
+				defer wg.Done()
+				o := one(i, pat)
+				mu.Lock()
+				got = append(got, o)
+				mu.Unlock()
+			}(i, pat)
+		}
+		wg.Wait()
+		elapsed := time.Since(start)
+		omu.Lock()
+		lookups := oCalls
+		omu.Unlock()
+		admitted, n429 := 0, 0
+		var oidx strings.Builder
+		coq.WriteString("(* Okta as password backend: (entry, right password, responses of the authn endpoint to successive requests (http status or 0 = honest, body code), status, requests observed) *)\nDefinition okta_cases : list (Z * bool * list (Z * Z) * Z * Z) := [")
+		for i, o := range got {
+			res.bump("handler:okta")
+			res.eval(fmt.Sprintf("okta|%s|%v|%v|%d|%d", o.entry, o.good, o.pat, o.status, o.seen), o.status != http.StatusTooManyRequests)
+			if o.status == http.StatusTooManyRequests {
+				n429++
+				if o.seen != 0 {
+					res.hit(verifHit{Key: "C14:handler:429-with-backend-call:" + o.entry, Oracle: "a refused attempt performs no backend lookup",
+						What: fmt.Sprintf("%s attempt answered 429 but the Okta authn endpoint was asked %d time(s)", o.entry, o.seen), Case: map[string]interface{}{"entry": o.entry, "phase": "okta"}})
+				}
+			} else {
+				admitted++
+				if o.seen != 1 {
+					res.hit(verifHit{Key: "C14:handler:lookups-per-token:okta", Oracle: "an attempt that the limiter lets through costs exactly one backend lookup, whatever the backend answers",
+						What: fmt.Sprintf("%s attempt (answered %d) with Okta as password backend, authn endpoint answering %v to successive requests: %d requests for one limiter token", o.entry, o.status, o.pat, o.seen),
+						Case: map[string]interface{}{"entry": o.entry, "backend": "okta", "responses_http_body": fmt.Sprint(o.pat), "good_password": o.good}, Observed: map[string]interface{}{"status": o.status, "lookups": o.seen}})
+				}
+			}
+			if i > 0 {
+				coq.WriteString(";")
+			}
+			e := 1
+			if o.entry == "form" {
+				e = 0
+			}
+			var ps []string
+			for _, x := range o.pat {
+				ps = append(ps, fmt.Sprintf("(%d,%d)", x.http, x.body))
+			}
+			coq.WriteString(fmt.Sprintf("(%d,%s,[%s],%d,%d)", e, coqBool(o.good), strings.Join(ps, ";"), o.status, o.seen))
+			oidx.WriteString(fmt.Sprintf("okta %d\tentry=%s right-password=%v authn-responses(http,body; 0,-1 = honest)=%v -> status %d, %d requests to the endpoint\n", i, o.entry, o.good, o.pat, o.status, o.seen))
+		}
+		limit := float64(oBurst) + oRate*elapsed.Seconds() + 1
+		res.Extra["lookups:okta"] = map[string]interface{}{"attempts": len(got), "admitted": admitted, "answered_429": n429, "lookups": lookups, "elapsed_s": elapsed.Seconds(), "bound": limit}
+		if float64(lookups) > limit {
+			res.hit(verifHit{Key: "C14:handler:too-many-backend-lookups:okta", Oracle: "backend lookups <= burst + rate*elapsed + 1",
+				What: fmt.Sprintf("%d attempts in %.3fs (burst %d, rate %v/s) with Okta as password backend: the authn endpoint was asked %d times, bound %.2f", len(got), elapsed.Seconds(), oBurst, oRate, lookups, limit),
+				Case: map[string]interface{}{"backend": "okta", "sequential": nSeq, "in_flight": nFlight}, Observed: map[string]interface{}{"lookups": lookups, "bound": limit}})
+		}
+		if admitted < oBurst || n429 == 0 {
+			res.hit(verifHit{Key: "C14:harness:okta-burst", Oracle: "harness", What: fmt.Sprintf("okta: %d let through, %d answered 429", admitted, n429), Case: "okta"})
+		}
+		coq.WriteString(`].
+Definition okta_body_of (b : Z) : okta_body := if b =? 0 then OSuccess else if b =? 1 then OMfaRequired else if b =? 2 then OOtherStatus else OUndecodable.
+Definition okta_ans (good : bool) (x : Z * Z) : backend_answer :=
+  let (h, b) := x in if b =? -1 then (if good then okta_answer 200 OSuccess else okta_answer 401 OOtherStatus) else okta_answer h (okta_body_of b).
+Definition okta_model (c : Z * bool * list (Z * Z) * Z * Z) : login_out :=
+  let '(e, good, pat, st, lk) := c in
+  let s := if st =? 429 then {| last := 0; T := 0 |} else init lk_cfg 0 in
+  snd (login_step_tries code_tries lk_cfg s (if e =? 0 then Form else BasicAuth) 0 (map (okta_ans good) pat)).
+Definition okta_bad (c : Z * bool * list (Z * Z) * Z * Z) : bool :=
+  let '(e, good, pat, st, lk) := c in
+  let o := okta_model c in
+  negb ((lookups o =? lk) && (if status o =? 200 then st <? 400 else status o =? st)).
+Definition okta_violates (c : Z * bool * list (Z * Z) * Z * Z) : bool :=
+  let '(e, good, pat, st, lk) := c in if st =? 429 then 0 <? lk else 1 <? lk.
+Definition c14_okta_mismatches := Eval vm_compute in mismatches okta_bad okta_cases.
+Print c14_okta_mismatches.
+Definition c14_okta_violating := Eval vm_compute in filter (fun i => okta_violates (nth i okta_cases (0, false, [], 429, 0))) c14_okta_mismatches.
+Print c14_okta_violating.
+`)
+		ioutil.WriteFile(filepath.Join(verifOut(), "CasesC14_okta.idx"), []byte(oidx.String()), 0644)
+	}
 	// the whole handler run against the bound
 	{
 		first, lastT := seq[0].t0, time.Now().UnixNano()
@@ -965,6 +1361,148 @@ Fixpoint totp_agree (m : users) (l : list (N * Z * Z * bool * (Z * Z * Z * Z))) 
 	}
 	coq.WriteString("].\nDefinition c14_totp_mismatches := Eval vm_compute in mismatches (fun l => match totp_agree (fun _ => rl0) l 0 with [] => false | _ => true end) totp_cases.\nPrint c14_totp_mismatches.\n")
 	coq.WriteString("Definition c14_totp_first := Eval vm_compute in match c14_totp_mismatches with [] => [] | i :: _ => totp_agree (fun _ => rl0) (nth i totp_cases []) 0 end.\nPrint c14_totp_first.\n")
+	// the property's own predicate on the observed transition of every step on which model and code differ:
+	// a broken correspondence whose observation violates the statement comes with its input
+	coq.WriteString(`(* class of violation shown by the OBSERVED transition (pre-entry, time, verdict -> accepted, entry after):
+   1 spacing: got past the spacing test less than min_secs after the user's last evaluated attempt
+   2 accepted while the lock-out of the entry before the call was running
+   3 an evaluated failure that the counter does not show (fewer consecutive failures stored than made)
+   4 the lock-out after the failure ends earlier than every*n failures demand
+   5 a cleanup pass that lowers the count or the lock-out
+   0 none of these: the code is stricter or differs in something the property does not speak about *)
+Definition totp_violation (pre : rl) (t v : Z) (ok : bool) (obs : Z * Z * Z * Z) : Z :=
+  let '(lc, fc, lf, lo) := obs in
+  if v =? 3 then (if (fc <? fail_count pre) || (lo <? lockout pre) then 5 else 0)
+  else
+    let passed := negb (lc =? last_check pre) in
+    if passed && (lc <? last_check pre + min_secs totp_k * SEC) then 1
+    else if ok && (t <? lockout pre) then 2
+    else let (s1, o) := attempt32 totp_k true pre t (verdict_of v) in
+         match o with
+         | EvalFail => if fc <? fail_count s1 then 3 else if lo <? lockout s1 then 4 else 0
+         | _ => 0
+         end.
+Fixpoint totp_violations (sc : Z) (m : users) (l : list (N * Z * Z * bool * (Z * Z * Z * Z))) (i : Z) : list Z :=
+  match l with [] => [] | (u, t, v, ok, obs) :: r =>
+    let c := totp_violation (m u) t v ok obs in
+    (if c =? 0 then [] else [sc * 1000000 + i * 10 + c]) ++ totp_violations sc (upd m u (rl_of obs)) r (i + 1) end.
+(* scenario * 10^6 + step * 10 + class, for the scenarios on which the correspondence fails *)
+Definition c14_totp_violating := Eval vm_compute in
+  flat_map (fun si => firstn 3 (totp_violations (Z.of_nat si) (fun _ => rl0) (nth si totp_cases []) 0)) c14_totp_mismatches.
+Print c14_totp_violating.
+`)
+	{
+		var tidx strings.Builder
+		rel := func(x, t0 int64) float64 {
+			if x == 0 {
+				return 0
+			}
+			return float64(x-t0) / 1e9
+		}
+		for si, obs := range scen {
+			tidx.WriteString(fmt.Sprintf("totp %d\t", si))
+			var t0 int64
+			for i, o := range obs {
+				if i == 0 {
+					t0 = o.t
+				}
+				what := "cleanup-pass"
+				if !o.cleanup {
+					what = []string{"fresh-code", "used-code", "wrong-code"}[o.verdict]
+				}
+				tidx.WriteString(fmt.Sprintf("[%d %s +%.3fs %s accepted=%v entry-after(lastCheck=+%.3fs failCount=%d lockout=+%.3fs)] ", i, users[o.user], float64(o.t-t0)/1e9, what, o.ok,
+					rel(o.lc, t0), o.fc, rel(o.lo, t0)))
+			}
+			tidx.WriteString("\n")
+		}
+		ioutil.WriteFile(filepath.Join(verifOut(), "CasesC14_totp.idx"), []byte(tidx.String()), 0644)
+	}
+
+	// guesses for ONE user in flight at the same time: N submissions (wrong codes and one right code) are
+	// released together; the spacing test and the update of the reference time are one step, so at most one
+	// of them may be evaluated per two seconds.  Evaluation is made visible through the verdict: the user
+	// has a second enabled device whose stored secret cannot be decrypted, so an attempt that reaches the
+	// comparison with the secrets answers "accepted" or an internal error, a throttled one a plain refusal.
+	{
+		const cu = "carol"
+		tt.enroll(t, cu)
+		{
+			profile, _, _, err := tenv.state.LoadUserProfile(cu)
+			if err != nil {
+				t.Fatal(err)
+			}
+			profile.TOTPAuthData[time.Now().Unix()+77] = &totpAuthData{CreatedAt: time.Now(), EncryptedSecret: [][]byte{[]byte("verif: not a ciphertext")}, Enabled: true}
+			if err := tenv.state.SaveUserProfile(cu, profile); err != nil {
+				t.Fatal(err)
+			}
+		}
+		rounds, par := 6, 12
+		if thorough {
+			rounds, par = 30, 16
+		}
+		type cAns struct {
+			right bool
+			ok    bool
+			err   bool
+		}
+		var perRound []int
+		for r := 0; r < rounds; r++ {
+			// two seconds and more have passed since whatever happened before (simulated)
+			tt.setVirtual(time.Now().UnixNano() + tt.shift + 3e9)
+			tt.setLast(t, cu, 0)
+			now := time.Now()
+			cs, _ := totp.GenerateCode(tt.secret[cu], now)
+			right, _ := strconv.Atoi(cs)
+			wrong := c14Garbage(tt.secret[cu], now)
+			rightAt := rng.Intn(par)
+			answers := make([]cAns, par)
+			var ready, done sync.WaitGroup
+			release := make(chan struct{})
+			for g := 0; g < par; g++ {
+				ready.Add(1)
+				done.Add(1)
+				go func(g int) {
+					defer done.Done()
+					code := wrong
+					if g == rightAt {
+						code = right
+					}
+					ready.Done()
+					<-release
+					ok, err := tenv.state.validateUserTOTP(cu, code, time.Now())
+					answers[g] = cAns{right: g == rightAt, ok: ok, err: err != nil}
+				}(g)
+			}
+			ready.Wait()
+			start := time.Now()
+			close(release)
+			done.Wait()
+			el := time.Since(start)
+			evaluated, accepted := 0, 0
+			for _, a := range answers {
+				if a.ok || a.err {
+					evaluated++
+				}
+				if a.ok {
+					accepted++
+				}
+			}
+			perRound = append(perRound, evaluated)
+			allowed := 1 + int(el.Seconds()/2)
+			res.eval(fmt.Sprintf("totp-concurrent|%d|%d", evaluated, accepted), true)
+			res.bump("totp:concurrent-round")
+			if evaluated > allowed {
+				res.hit(verifHit{Key: "C14:totp:spacing:concurrent", Oracle: "evaluated attempts of one user are at least 2 s apart, also when the guesses are in flight at the same time",
+					What:     fmt.Sprintf("%d one-time-code submissions for one user (%d wrong codes, 1 right code) released together: %d were evaluated (compared with the user's secrets) within %.0f ms, %d accepted", par, par-1, evaluated, el.Seconds()*1000, accepted),
+					Case:     map[string]interface{}{"user": cu, "parallel": par, "round": r, "right_code_at": rightAt, "devices": "one valid, one whose secret cannot be decrypted (makes an evaluation visible as an internal error)"},
+					Observed: map[string]interface{}{"evaluated": evaluated, "accepted": accepted, "elapsed_ms": el.Seconds() * 1000}})
+			}
+			if evaluated < 1 {
+				res.hit(verifHit{Key: "C14:harness:totp-concurrent", Oracle: "harness", What: fmt.Sprintf("round %d: none of %d submissions was evaluated although the last evaluation was 3 s ago", r, par), Case: "concurrent"})
+			}
+		}
+		res.Extra["totp_concurrent"] = map[string]interface{}{"rounds": rounds, "parallel": par, "evaluated_per_round": perRound}
+	}
 
 	// real time, through the HTTP handler: 25 wrong codes in a row, at most one is evaluated
 	{
